@@ -170,6 +170,7 @@ func planAnchorRestore(p *Prog, in *inliner, plan *canonPlan, skipDecl map[*ast.
 		// still there?
 		present := false
 		var cands, renames []*Fn
+		loose := map[*Fn]bool{} // candidates that differ by an added result: considered only when no exact one exists
 		wn, wt := want.operands()
 		_ = wn
 		wsorted := sortedCopy(wt)
@@ -203,6 +204,7 @@ func planAnchorRestore(p *Prog, in *inliner, plan *canonPlan, skipDecl map[*ast.
 				if !(len(want.RTypes) == 0 && len(have.RTypes) > 0 && newName && sameStrings(have.PTypes, want.PTypes) && have.Recv == want.Recv) {
 					continue
 				}
+				loose[f] = true
 			}
 			if newName && want.Recv != "" && have.Recv == "" && sameStrings(have.PTypes, want.PTypes) {
 				// an anchored method that lost its (unused) receiver *and* its name: the name is given back here, the
@@ -244,6 +246,17 @@ func planAnchorRestore(p *Prog, in *inliner, plan *canonPlan, skipDecl map[*ast.
 			}
 			if ok {
 				cands = append(cands, f)
+			}
+		}
+		if len(cands) > 1 {
+			var exact []*Fn
+			for _, c := range cands {
+				if !loose[c] {
+					exact = append(exact, c)
+				}
+			}
+			if len(exact) >= 1 {
+				cands = exact
 			}
 		}
 		if !present && len(cands) == 0 && len(renames) == 1 {
